@@ -458,6 +458,10 @@ func (sf *file) ReadAt(p []byte, offset int64) (int, error) {
 			upperDiscard = positive(chunkOffset + chunkSize - (offset + int64(len(p))))
 			expectedSize = chunkSize - upperDiscard - lowerDiscard
 		)
+		if expectedSize <= 0 || int64(len(p)-nr) < expectedSize {
+			// e.g. chunks of the (untrusted) TOC that overlap each other
+			return 0, fmt.Errorf("invalid chunk (off:%d,size:%d) for reading %d bytes at offset %d", chunkOffset, chunkSize, len(p)-nr, offset+int64(nr))
+		}
 
 		// Check if the content exists in the cache
 		if r, err := sf.gr.cache.Get(id); err == nil {
